@@ -178,7 +178,7 @@ func runC16(c *core.Ctx, o Options) {
 				}
 				continue
 			}
-			if read&permitted != 0 {
+			if read&permitted != 0 && !(kind == "Logon" && read&sl != 0) { // a Logon path that SuccessfulLogged can take must reject, whatever else can take it
 				if read&^permitted != 0 && kind != "Logon" {
 					// the path does not separate permitted from not-permitted states
 					bad = append(bad, fmt.Sprintf("path taken both in permitted and not-permitted states %s: %s", s.m.SetString(read), traceStr(t)))
@@ -296,6 +296,11 @@ func runC16(c *core.Ctx, o Options) {
 	checkCodecs(c, "J4", map[string]bool{"frombytes": true})
 	// J2 premise: an administrative message reaches the handler of its type (which rejects it) whatever the all-types handlers returned
 	checkInboundDispatch(c, "J2")
+	for _, k := range adminKinds {
+		s.checkRegisteredOnce("J1", true, k)
+	}
+	// J4: an unparsable field anywhere in the message — header and trailer components included — fails Unmarshal
+	checkItemLoops(c, "J4")
 	if vbt := c.Func("fix", "ValueByTag"); vbt != nil {
 		n := needleCensus(c, "J4", []*ssa.Function{vbt})
 		c.Check(n >= 2, "J4", "ValueByTag", "anchored lookups found", vbt.Pos(), fmt.Sprint(n), "ValueByTag no longer searches with anchored needles")
@@ -506,7 +511,7 @@ func runC14(c *core.Ctx, o Options) {
 	// Q3b: nothing between the handler and the outbound queue runs in another goroutine
 	checkSendChainNoSpawn(c, s, "Q3")
 	c.Extra["paths"] = len(traces)
-	c.RuleMin = map[string]int{"Q0": 9, "Q1": 1, "Q2": 1, "Q3": 7, "Q4": 12, "Q5": 1}
+	c.RuleMin = map[string]int{"Q0": 10, "Q1": 1, "Q2": 1, "Q3": 7, "Q4": 12, "Q5": 1}
 	c.MinObl = 7
 }
 
@@ -563,6 +568,35 @@ func (s *sess) checkRegisteredOnce(rule string, in bool, key string) {
 	default:
 		ob.Ok("registered in %s, which no handler, callback or goroutine calls", an.NameOf(r.Parent))
 	}
+	// … and on every successful way through that function: a role (or a configuration) for which the registration is
+	// skipped never handles the message type
+	paths, _ := an.EnumPaths(r.Parent, 4096)
+	skipped := ""
+	n := 0
+	for _, p := range paths {
+		if p.Return == nil || p.Passes(r.Site) {
+			continue
+		}
+		// failure exits: the result is an error that the path has tested non-nil, or a freshly built error
+		failure := false
+		if len(p.Results) > 0 {
+			last := p.Results[len(p.Results)-1]
+			for _, a := range p.Atoms {
+				if a.Rel == "!=" && a.R == "nil" && a.L == last {
+					failure = true
+				}
+			}
+			if strings.HasPrefix(last, "fmt.Errorf(") || strings.HasPrefix(last, "errors.New(") || strings.HasPrefix(last, "Err") {
+				failure = true
+			}
+		}
+		if !failure {
+			n++
+			skipped = p.CondString()
+		}
+	}
+	c.Check(n == 0, rule, an.NameOf(r.Parent), "the "+key+" handler is registered on every successful path of "+an.NameOf(r.Parent), r.Site.Pos(), "no success path bypasses the registration",
+		fmt.Sprintf("%d successful path(s) of %s return without registering the %s handler (e.g. under [%s]): a session configured that way never handles that message type", n, an.NameOf(r.Parent), key, skipped))
 }
 
 // checkUnboundedFieldRead: the connection reader takes fields off the stream with bufio.Reader.ReadBytes, the one bufio primitive
